@@ -11,12 +11,12 @@ Translated (Python ast -> Gallina over `string`, fail closed):
                                       (+ `inflight_paths_equal : ... = ...` by eq_refl: the build breaks if they differ)
   DEFAULT_INFLIGHT_TIMEOUT_MS, DEFAULT_GRACE_MS (collect), TABLE_DEFAULT_GRACE_MS (Table.garbage_collect)
   MARKERS_FIRST                       whether collect() loads the in-flight protection before it reads the metadata
-  append_admits_path normpath file_path
+  append_accepts_path normpath file_path
                                       Transaction.append_files: the conjunction of the pure path guards it applies to EVERY file
                                       unconditionally (`self._require_*(data_file.file_path)` statements at the top level of its
                                       `for data_file in files` loop, each guard a static method of the shape assignments +
                                       `if <test>: raise`); posixpath.normpath is a parameter.  No such guard -> `true`: what the
-                                      manifests may name is then whatever exists (Proofs/GCAdmitProofs.v fails, as it must).
+                                      manifests may name is then whatever exists (Proofs/GCAcceptProofs.v fails, as it must).
 
 Pinned (hand-modelled in Model/GC.v): FileManager.read_manifest(_list)_file's Avro attempt catches exactly
 (ValueError, IndexError, StopIteration, OSError) and falls through to a JSON fallback that raises on failure;
@@ -451,7 +451,7 @@ def register_terms(fn: ast.FunctionDef, consts: Dict[str, str]) -> Tuple[str, st
     return wrap(path_term), wrap(payload_term)
 
 
-# ----------------------------------------------------------------------------- append_files admission guards
+# ----------------------------------------------------------------------------- append_files acceptance guards
 def guard_term(body: List[ast.stmt], env: Env, fname: str) -> str:
     """Body of a guard method: (imports,) assignments and `if <test>: raise ...` only -> `true` iff no raise is reached."""
     if not body:
@@ -467,7 +467,7 @@ def guard_term(body: List[ast.stmt], env: Env, fname: str) -> str:
     raise Unsupported(f"{fname}: statement not supported in a path guard: {dump(s)}")
 
 
-def admission_term(tx: ast.Module) -> Tuple[str, List[str]]:
+def acceptance_term(tx: ast.Module) -> Tuple[str, List[str]]:
     """Transaction.append_files: what is demanded of data_file.file_path for EVERY file, before the operation is queued."""
     fn = find_function(tx, "append_files", cls="Transaction")
     if [a.arg for a in fn.args.args] != ["self", "files"]:
@@ -553,7 +553,7 @@ def gen_norm(src: str) -> str:
     if [a.arg for a in reg.args.args] != ["self", "file_path"]:
         raise Unsupported("_register_inflight signature changed")
     reg_path, reg_payload = register_terms(reg, {"_INFLIGHT_PATH": "TX_INFLIGHT_PATH"})
-    admit_term, admit_names = admission_term(tx)
+    accept_term, accept_names = acceptance_term(tx)
 
     # hand-modelled control structure: pinned
     fm = parse_module(src, "file_manager.py")
@@ -597,8 +597,8 @@ Definition register_marker_path (file_path : string) : string :=
 Definition register_marker_payload (file_path : string) : string :=
   {reg_payload}.
 
-(* Transaction.append_files: the path guards applied to every file unconditionally ({", ".join(admit_names) or "none"});
+(* Transaction.append_files: the path guards applied to every file unconditionally ({", ".join(accept_names) or "none"});
    posixpath.normpath is a parameter *)
-Definition append_admits_path (normpath : string -> string) (file_path : string) : bool :=
-  {admit_term}.
+Definition append_accepts_path (normpath : string -> string) (file_path : string) : bool :=
+  {accept_term}.
 """
